@@ -265,13 +265,20 @@ pub struct Instance {
 
 impl Instance {
     pub fn new(logging: bool) -> Result<Instance, String> {
+        Self::new_with_readahead(logging, &[])
+    }
+
+    /// `readahead`: bytes of the first post-handshake message that arrive in the same chunk as `init`.
+    pub fn new_with_readahead(logging: bool, readahead: &[u8]) -> Result<Instance, String> {
         sched::take_panics();
         sched::clear_select_queue();
         let rt = sched::new_runtime();
         let reader = PipeReader::default();
         let writer = PipeWriter::default();
         let state = FState::default();
-        reader.push(&handshake());
+        let mut first = handshake();
+        first.extend_from_slice(readahead);
+        reader.push(&first);
         let (r2, w2, s2) = (reader.clone(), writer.clone(), state.clone());
         let task = {
             let _g = rt.enter();
@@ -870,6 +877,49 @@ pub fn run(thorough: bool, _threads: usize, name: &'static str) -> JobResult {
         }
         run_set("E8 output pipe blocked from some step until the end", &mut eps.into_iter(), logging, &mut shared, &mut result, &mut outcomes);
     }
+    // E9: the chunk that carries the end of `init` also carries the first k bytes of the next message(s)
+    if !logging {
+        let mut n9 = 0u64;
+        let mut ks: Vec<usize> = vec![1, 2, st0.boundaries[0] - 2, st0.boundaries[0] - 1, st0.boundaries[0], st0.boundaries[0] + 1, st0.boundaries[1], st0.bytes.len() - 1, st0.bytes.len()];
+        if thorough {
+            ks = (1..=st0.bytes.len()).collect();
+        }
+        for k in ks {
+            for o in [&orders[0], &orders[orders.len() - 1]] {
+                let mut inst = match Instance::new_with_readahead(false, &st0.bytes[..k]) {
+                    Ok(i) => i,
+                    Err(e) => {
+                        result.error = Some(e);
+                        return result;
+                    }
+                };
+                let mut steps = vec![Step::Feed(k, st0.bytes.len())];
+                for c in o.iter() {
+                    steps.push(Step::Complete(*c));
+                }
+                steps.push(Step::CompleteAll);
+                let e = Episode { ep: 0, steps, writer_modes: Vec::new() };
+                let vs = run_episode(&mut inst, &st0, &e);
+                n9 += 1;
+                result.runs += 1;
+                result.transitions += e.steps.len() as u64;
+                outcomes.insert(0x9000_0000 + (k as u64) * 100 + o[0] as u64);
+                for v in vs {
+                    if v.clause == "machinery" {
+                        continue;
+                    }
+                    if !result.found.iter().any(|f| f.violation.signature() == v.signature()) {
+                        result.found.push(FoundAny {
+                            violation: v,
+                            cost: 0,
+                            replay: json!({"engine": "F", "scenario": name, "episode": e.describe(), "readahead": k}),
+                        });
+                    }
+                }
+            }
+        }
+        result.extra.insert("E9 bytes read ahead past init".into(), json!(n9));
+    }
     // E7: three cuts among the interesting offsets
     if !logging && thorough {
         let mut eps: Vec<Episode> = Vec::new();
@@ -886,7 +936,7 @@ pub fn run(thorough: bool, _threads: usize, name: &'static str) -> JobResult {
     result.states = outcomes.len() as u64;
     result.distinct_outcomes = outcomes.len() as u64;
     result.rule = Some(format!(
-        "engine F{}: real cln_plugin Builder/driver/codec over in-memory pipes; node stream = handshake + 5 messages ({} bytes: two hook calls, two method calls with string ids one of whose handler returns an error, one notification; multi-byte characters, escaped and literal single newlines, one pretty-printed body); enumerated (per-set episode counts are in `extra`; with logging on the pair/triple cut sets are skipped): every single cut point x all 24 completion orders of the four gated calls (one of which fails), every pair of cut points, the all-single-bytes partition, every interleaving of message-sized feeds with handler completions, short/pending writes at each of the first 12 poll_write calls, select! start-branch deviations at every step, the node not draining the output pipe from any step until the end{}; oracle: handlers invoked once per request in order with the sent params, output = complete JSON documents each followed by exactly one blank line, reply ids = request ids, replies echo their own request, nothing for notifications",
+        "engine F{}: real cln_plugin Builder/driver/codec over in-memory pipes; node stream = handshake + 5 messages ({} bytes: two hook calls, two method calls with string ids one of whose handler returns an error, one notification; multi-byte characters, escaped and literal single newlines, one pretty-printed body); enumerated (per-set episode counts are in `extra`; with logging on the pair/triple cut sets are skipped): every single cut point x all 24 completion orders of the four gated calls (one of which fails), every pair of cut points, the all-single-bytes partition, every interleaving of message-sized feeds with handler completions, short/pending writes at each of the first 12 poll_write calls, select! start-branch deviations at every step, the node not draining the output pipe from any step until the end, the first k bytes after `init` arriving in the same chunk as `init`{}; oracle: handlers invoked once per request in order with the sent params, output = complete JSON documents each followed by exactly one blank line, reply ids = request ids, replies echo their own request, nothing for notifications",
         if logging { " (logging on, one long-lived instance, episodes from the idle state)" } else { "" },
         n,
         if thorough { ", every triple of cut points among the interesting offsets (separators, multi-byte characters, escapes)" } else { "" }
